@@ -56,11 +56,11 @@ PLANS = {
         "assumptions": COMMON_ASSUME,
     },
     "C05": {
-        "rule": "sim engine with MAX_CONCURRENT_STREAMS in {1,2,..5} on either side, several SendRequest clones racing for slots, streams closing by every path; wire oracle (initiator side) + accept()-time oracle (acceptor side) + snapshot counters. Non-trivial iff a limit was reached (request opened exactly at the limit, accept at the limit, or a stream refused); distinct by behaviour fingerprint.",
-        "quick": [sim("concurrency", 12000), sim("lifecycle", 4000)],
-        "thorough": [sim("concurrency", 300000), sim("lifecycle", 100000)],
+        "rule": "sim engine with MAX_CONCURRENT_STREAMS in {1,2,..5} on either side, several SendRequest clones racing for slots, streams closing by every path; wire oracle (initiator side) + accept()-time oracle (acceptor side: accept() on a server, pushed responses handed out on a client) + snapshot counters; raw engine, flood kinds that cross the limit from outside (a scripted client opening streams beyond the server's advertised limit; a scripted server opening more pushed streams than the client advertised and keeping them open): the excess must be answered with REFUSED_STREAM and never reach the application. Non-trivial iff a limit was reached (request opened exactly at the limit, accept at the limit, or a stream refused); distinct by behaviour fingerprint.",
+        "quick": [sim("concurrency", 12000), sim("lifecycle", 4000), raw("flood", 640, extra=["--kinds", "client:push-open,server:open-only,server:open-es,server:open-rst"], label="raw-flood-limits")],
+        "thorough": [sim("concurrency", 300000), sim("lifecycle", 100000), raw("flood", 30000, extra=["--kinds", "client:push-open,server:open-only,server:open-es,server:open-rst"], label="raw-flood-limits")],
         "min_nontrivial": {"quick": 500, "thorough": 5000},
-        "require_stats": {"quick": {"client.opened_at_limit": 200, "server.accept_at_limit": 200}, "thorough": {}},
+        "require_stats": {"quick": {"client.opened_at_limit": 200, "server.accept_at_limit": 200, "client.pushed_responses_surfaced": 300, "client.accept_at_limit": 50, "client.refused_streams": 1000, "server.refused_streams": 1000}, "thorough": {}},
         "assumptions": COMMON_ASSUME + ["acceptor side: a stream counts as finished for the application from the moment it submitted END_STREAM/reset through the API (h2's own definition), not when the frame reached the wire"],
     },
     "C06": {
